@@ -8,6 +8,17 @@ ROOT = os.path.dirname(os.path.dirname(os.path.abspath(__file__)))
 props = [json.loads(l) for l in open(os.path.join(ROOT, "properties.jsonl"))]
 
 CHECKS = {
+    "C14": dict(
+        text="Restore.tla states Exact / ExtrasKept / ExtrasGone / Confined; MCRestore.tla enumerates the per-path decision of the "
+             "merge-walk over every pre-existing entry kind x snapshot entry kind x (delete, verify). Real restores run into "
+             "destinations derived from a correct copy by 14 mutation kinds (or empty / unrelated) under all 16 option combinations; "
+             "RestoreTrace.tla evaluates the formulas on pre/post directory projections. Hostile trees (node names '..', '../x', "
+             "absolute paths, 'a/../../up', '', '.') written with the harness's own pack writer are restored into jail/dest and "
+             "everything outside dest must be unchanged.",
+        note="Runs as root (ownership restore possible, mode-000 entries readable). Special files are not generated. One snapshot "
+             "shape per run; the mutation x option grid is the quantifier covered.",
+        technique="TLC enumeration of the restore decision table + TLC validation of pre/post directory states of real restores incl. jail",
+        design="4/C14"),
     "C01": dict(
         text="Source trees are built on a real directory covering the input classes of the property (boundary sizes, zero / "
              "periodic / random content, a file equal to a directory's serialisation, arbitrary-byte names, symlinks incl. non-UTF-8 "
